@@ -231,14 +231,14 @@ pub fn generate(tier: &str, rng: &mut Rng) -> Vec<String> {
     for k in [Seed::Uninitialized, Seed::InstructionData { index: 1, length: 2 }, Seed::AccountKey { index: 3 }, Seed::AccountData { account_index: 1, data_index: 2, length: 3 }] {
         for d in 0..=6usize { v.push(format!("packone {} {}", fmt_seed(&k), d)); }
     }
-    for _ in 0..(if thorough { 100_000 } else { 3_000 }) {
+    for _ in 0..(if thorough { 400_000 } else { 3_000 }) {
         let n = match rng.below(8) { 0 => 0, 1 => 1, 7 => rng.range(8, 18) as usize, _ => rng.range(2, 7) as usize };
         let max_lit = if rng.chance(1, 10) { 40 } else { 12 };
         let seeds: Vec<Seed> = (0..n).map(|_| rand_seed(rng, max_lit)).collect();
         v.push(format!("packseeds {}", fmt_seeds(&seeds)));
     }
     // unpack: random arrays, structured arrays (valid packings with garbage tails / mutated bytes)
-    for _ in 0..(if thorough { 200_000 } else { 4_000 }) {
+    for _ in 0..(if thorough { 800_000 } else { 4_000 }) {
         let mut c = [0u8; 32];
         match rng.below(4) {
             0 => { for b in c.iter_mut() { *b = rng.byte(); } }
